@@ -65,6 +65,8 @@ def s_parse_random(rng):
     op = {'op': rng.choice(['parse', 'parse', 'iterparse'])}
     op.update(gen.container_variants(rng, s))
     op['via'] = rng.choice(['internal', 'public', 'codec'])     # penman.parse / PENMANCodec().parse / the internals
+    if op['op'] == 'iterparse' and maybe(rng, 0.3):
+        op['consume'] = rng.choice([1, 1, 2, 3])
     return op
 
 
@@ -708,9 +710,13 @@ def run_stream(name, n, seed, result=None):
     def it():
         for _ in range(n):
             try:
-                yield f(rng)
+                op = f(rng)
             except Unrepresentable:
                 continue
+            if rng.random() < 0.15 and op.get('op') not in ('main',):
+                # documented-pure calls on the argument objects before the call under test
+                op['warm'] = rng.randrange(1, 1 << 16)
+            yield op
     return run_ops(it(), stream=name, result=result)
 
 
